@@ -210,7 +210,11 @@ class _IonQClient:
         return self._make_request(request, {}).json()
 
     def get_results(
-        self, job_id: str, sharpen: bool | None = None, extra_query_params: dict | None = None
+        self,
+        job_id: str,
+        sharpen: bool | None = None,
+        extra_query_params: dict | None = None,
+        batch_mode: bool | None = None,
     ):
         """Get job results from IonQ API.
 
@@ -219,6 +223,8 @@ class _IonQClient:
             sharpen: A boolean that determines how to aggregate error mitigated.
                 If True, apply majority vote mitigation; if False, apply average mitigation.
             extra_query_params: Specify any parameters to include in the request.
+            batch_mode: Whether the job is a batch of circuits. If not given, the mode of the
+                job most recently created through this client is assumed.
 
         Returns:
             extra_query_paramsresponse as a dict.
@@ -236,14 +242,16 @@ class _IonQClient:
         if extra_query_params:
             params.update(extra_query_params)
 
+        is_batch = self.batch_mode if batch_mode is None else batch_mode
+
         def request():
-            if self.batch_mode:
+            if is_batch:
                 return requests.get(
                     f'{self.url}/jobs/{job_id}/results/probabilities/aggregated',
                     params=params,
                     headers=self.headers,
                 )
-            elif not self.batch_mode:
+            else:
                 return requests.get(
                     f'{self.url}/jobs/{job_id}/results/probabilities',
                     params=params,
